@@ -126,6 +126,20 @@ def check_property(prop, tier, seed, run_symbolic, lock, verbose=False, jobs=Non
             inst = [o for o in by_name[n] if o['status'] == 'refuted'][0]
             rp = replay.attempt(prop, n, inst, eng.src.repo)
             violations.append((n, rp))
+    # bounded stand-in (never counted as proved): native search for a failing input on the real code
+    orc = replay.run_oracle(prop, eng.src.repo, seed, 'quick' if tier != 'thorough' else 'thorough')
+    ores = orc.get('result') or {}
+    standin = {'name': 'native property oracle sqv/native/oracles.py %s' % prop, 'bound': 'fixed corpus + seeded random cases (%s budget)' % tier,
+               'cases': ores.get('cases', 0), 'failures': ores.get('n_failures', 0), 'counted_as_proved': False,
+               'oracle_error': ores.get('oracle_error') or (orc.get('stderr') if not ores else None)}
+    extra_info.setdefault('bounded_standins', []).append(standin)
+    if ores.get('failures') and not violations:
+        rp = replay.attempt(prop, 'bounded-standin:%s:failing-input-on-the-real-code' % prop,
+                            {'func': 'sqv/native/oracles.py', 'path': '', 'model': ores['failures'][0], 'info': {}, 'static': True},
+                            eng.src.repo)
+        violations.append(('bounded-standin:%s:failing-input-on-the-real-code' % prop, rp))
+    if ores.get('oracle_error') or (not ores):
+        errors.append(('oracle', 'native oracle failed: %s' % (ores.get('oracle_error') or orc.get('stderr'))))
     unknown_names = sorted(n for n, st in verdict.items() if st == 'unknown')
 
     for fid in matched_ids:
@@ -195,8 +209,9 @@ def check_property(prop, tier, seed, run_symbolic, lock, verbose=False, jobs=Non
         'wall_s': round(wall, 2),
         'violations': len(violations),
     }
-    os.makedirs(os.path.join(ROOT, 'evidence'), exist_ok=True)
-    with open(os.path.join(ROOT, 'evidence', '%s.json' % prop), 'w') as f:
+    outdir = os.environ.get('SQV_OUT', ROOT)        # the seeded self-test redirects its output away from /verif
+    os.makedirs(os.path.join(outdir, 'evidence'), exist_ok=True)
+    with open(os.path.join(outdir, 'evidence', '%s.json' % prop), 'w') as f:
         json.dump(evidence, f, indent=1)
     for line in out:
         print(line)
